@@ -46,13 +46,43 @@ class Check:
         self.rule_texts = {}
         self.seed = int(os.environ.get("VERIF_SEED", "0") or 0)
         self.config = "W"   # configuration whose facts are being analysed (thorough tier iterates over several)
+        self._only = None
 
     # ------------------------------------------------------------------ recording
+    def only(self, rules=None, keys=None):
+        """context manager: while active, only obligations of the given rule ids (and whose instance satisfies `keys`) are
+        recorded.  A property check that borrows another property's rule module takes exactly the rules that are necessary
+        conditions of ITS property - the rest of the module would report changes that do not affect this property."""
+        chk = self
+
+        class _Only:
+            def __enter__(self_):
+                self_.prev = chk._only
+                chk._only = (set(rules) if rules is not None else None, keys)
+
+            def __exit__(self_, *a):
+                chk._only = self_.prev
+        return _Only()
+
+    def _accept(self, rule, inst):
+        if self._only is None:
+            return True
+        rs, kp = self._only
+        if rs is not None and rule not in rs:
+            return False
+        if kp is not None and not kp("%s:%s" % (rule, inst)):
+            return False
+        return True
+
     def rule(self, rid, text):
+        if self._only is not None and self._only[0] is not None and rid not in self._only[0]:
+            return
         self.rule_texts[rid] = text
 
     def ob(self, rule, inst, ok, detail="", site=None, nontrivial=True, sample=None):
         """one rule instance (obligation). key = rule + instance descriptor, never a line number."""
+        if not self._accept(rule, inst):
+            return ok
         key = "%s:%s" % (rule, inst)
         if self.config != "W":
             key = "%s@[%s]" % (key, self.config)
@@ -66,6 +96,8 @@ class Check:
     def floor(self, rule, what, count, minimum, other=1):
         """fail closed when a rule matches fewer instances than were confirmed by hand (floors are counted on the
         workspace configuration W; in the additional feature configurations of the thorough tier `other` applies)"""
+        if not self._accept(rule, "floor(%s)" % what):
+            return True
         if self.config != "W":
             minimum = other
         ok = count >= minimum
